@@ -283,7 +283,8 @@ fn lookups_two_level(s: &mut Sess, tier: &str) {
             }
             count += 1;
             let items: Vec<Kv> = keys.iter().enumerate().map(|(i, k)| (k.clone(), [10u64, 20, 20, 30, 40, 2650, 22, 0][(i + mask as usize) % 8])).collect();
-            if let Some(f) = s.build(Front::MapInsert, &items, *geo) {
+            // (through every way of filling a map builder, in turn)
+            if let Some(f) = s.build(MAP_FRONTS[(count / 4 + gi) % MAP_FRONTS.len()], &items, *geo) {
                 for (pi, p) in probes.iter().enumerate() {
                     match (pi + count) % 3 {
                         0 => s.get(f, p, "map"),
@@ -311,7 +312,8 @@ pub fn c02(s: &mut Sess, seed: u64, tier: &str) {
         nin += 1;
         // every fourth small input is streamed into a sink that accepts a few bytes per write
         let built = if !big && nin % 4 == 1 { s.build_through_sink(&items, [0usize, 3, 5, 64][(nin / 4) % 4], seed + nin as u64) }
-                    else { s.build(Front::MapInsert, &items, if big { None } else { geo }) };
+                    // (every way of filling a map builder, in turn)
+                    else { s.build(if big { Front::MapInsert } else { MAP_FRONTS[nin % MAP_FRONTS.len()] }, &items, if big { None } else { geo }) };
         let f = match built {
             Some(f) => f,
             None => continue,
@@ -718,6 +720,20 @@ pub fn c05(s: &mut Sess, seed: u64, tier: &str) {
                 s.pred("is_superset", f, &sub, &InKind::Whole);
                 s.pred("is_subset", f, &sub, &InKind::User);
             }
+            // the same predicates on the raw level, where both sides carry values (smaller, equal and
+            // larger ones on the shared keys): the answer is about keys only
+            if let Some(f) = s.build(Front::RawInsert, &ins[0].items, None) {
+                let mut other: Vec<Kv> = if ins.len() > 1 { ins[1].items.clone() } else { ins[0].items.clone() };
+                for p in &["is_disjoint", "is_subset", "is_superset"] {
+                    s.pred_raw(p, f, &other, pick(&mut r, &[InKind::Whole, InKind::User]));
+                }
+                for shift in 0..3u64 {
+                    other = ins[0].items.iter().filter(|_| r.gen_range(0, 3) != 0).map(|(k, v)| (k.clone(), match shift { 0 => v / 2, 1 => *v, _ => v.saturating_add(5) })).collect();
+                    s.pred_raw("is_superset", f, &other, pick(&mut r, &[InKind::Whole, InKind::User]));
+                    s.pred_raw("is_subset", f, &other, pick(&mut r, &[InKind::Whole, InKind::User]));
+                    s.pred_raw("is_disjoint", f, &other, &InKind::Whole);
+                }
+            }
         }
     }
 }
@@ -756,6 +772,31 @@ pub fn c06(s: &mut Sess, seed: u64, tier: &str) {
         if let Some(f) = s.build(front, &calls, *pick(&mut r, GEOMETRIES)) {
             s.open(f, "raw");
             s.stream(f, "raw", &[], None, false, usize::MAX);
+        }
+        // the same history cut into segments that reach one builder as single calls, extend_iter
+        // batches and extend_stream batches in turn: batches arrive at a builder that already holds
+        // keys, begin with a repeat of its last key or with a smaller key, and are followed by more
+        if calls.len() >= 2 {
+            let mut segs: Vec<(u8, Vec<Kv>)> = vec![];
+            let mut i = 0;
+            while i < calls.len() {
+                let n = r.gen_range(1, 5);
+                let how = r.gen_range(0, 3) as u8;
+                let mut seg: Vec<Kv> = vec![];
+                // every third batch starts with the key accepted last (or any earlier key)
+                if how != 0 && i > 0 && r.gen_range(0, 3) == 0 {
+                    let j = if r.gen_range(0, 2) == 0 { i - 1 } else { r.gen_range(0, i) };
+                    seg.push((calls[j].0.clone(), r.gen_range(0, 1000)));
+                }
+                seg.extend(calls[i..std::cmp::min(calls.len(), i + n)].iter().cloned());
+                segs.push((how, seg));
+                i += n;
+            }
+            let kind = ["raw", "map", "set"][round % 3];
+            if let Some(f) = s.build_session(kind, &segs) {
+                s.open(f, "raw");
+                s.stream(f, "raw", &[], None, false, usize::MAX);
+            }
         }
     }
 }
@@ -816,6 +857,19 @@ pub fn c16(s: &mut Sess, seed: u64, tier: &str) {
             let size = s.fsts[f - 1].0.len();
             let long1: Vec<u8> = (0..size + 7).map(|i| (i % 251) as u8).collect();
             let long2: Vec<u8> = vec![b'p'; std::cmp::max(1, size.saturating_sub(2))];
+            // every third small map is also queried through the version-2 image of the same build
+            // (version 2 is version 3 without the trailing checksum: same nodes, same index tables)
+            let f2 = if !big && nin % 3 == 0 {
+                let mut b2 = s.fsts[f - 1].0.clone();
+                b2[..8].copy_from_slice(&2u64.to_le_bytes());
+                b2.truncate(b2.len() - 4);
+                let m = s.fsts[f - 1].1;
+                let f2 = s.have(b2, m, "version-2 image of the same build");
+                s.open(f2, "raw");
+                Some(f2)
+            } else {
+                None
+            };
             for q in qs {
                 let prefix: &[u8] = match r.gen_range(0, 8) {
                     0 | 1 => b"buf:",
@@ -827,6 +881,9 @@ pub fn c16(s: &mut Sess, seed: u64, tier: &str) {
                     s.get_key(f, q, b"");
                 } else {
                     s.get_key(f, q, prefix);
+                }
+                if let Some(f2) = f2 {
+                    s.get_key(f2, q, if prefix.len() > 600 { b"" } else { prefix });
                 }
             }
         }
